@@ -579,6 +579,16 @@ def listOf (k : PKind) (cont : List Pkg → P Res) : P Res :=
     | .err .notFound => cont []
     | _ => .ret (.err "install: list")
 
+/-- the apply loop of PackageInstaller.Run: providers, then configurations, then functions -/
+def installApply (ps cs fs : List (String × Ref)) : P Res :=
+  Prog.bind (forEach (applyPkg .provider) ps) fun r =>
+    match r with
+    | .ok => Prog.bind (forEach (applyPkg .configuration) cs) fun r =>
+      match r with
+      | .ok => forEach (applyPkg .function) fs
+      | e => .ret e
+    | e => .ret e
+
 /-- PackageInstaller.Run after the three lists: buildPack for every image, then apply all -/
 def installBody (res : List (String × String) → Ref → String) (p c f : List Img) (pl cl fl : List Pkg) : P Res :=
   match buildAll res (buildIndex pl) p with
@@ -589,14 +599,7 @@ def installBody (res : List (String × String) → Ref → String) (p c f : List
     | some cs =>
       match buildAll res (buildIndex fl) f with
       | none => .ret (.err "install: parse")
-      | some fs =>
-        Prog.bind (forEach (applyPkg .provider) ps) fun r =>
-          match r with
-          | .ok => Prog.bind (forEach (applyPkg .configuration) cs) fun r =>
-            match r with
-            | .ok => forEach (applyPkg .function) fs
-            | e => .ret e
-          | e => .ret e
+      | some fs => installApply ps cs fs
 
 /-- PackageInstaller.Run, parametric in the lookup used by buildPack -/
 def installWith (res : List (String × String) → Ref → String) (p c f : List Img) : P Res :=
